@@ -94,8 +94,17 @@ def run(chk):
             lambda ob, v=v, ua=ua, ub=ub: check_conv(tbl, v, ua, ub, ob, "n"), model,
             dict(v=v, ua=qtylib.show_unit(ua), ub=qtylib.show_unit(ub), tv=tv))
 
+    corpus_src = []
     for c in json.load(open(os.path.join(common.VERIF, "corpus", "c04.json"))):
+        if "src" in c:
+            corpus_src.append(c)
+            continue
         conv_case("corpus", c["v"], qtylib.parse_unit(c["ua"]), qtylib.parse_unit(c["ub"]), c.get("tv", 1.0))
+    for c in corpus_src:       # source text with the exact expected display
+        add("corpus-src", "S " + c["src"],
+            lambda ob, c=c: None if ob.kind == "Q" and ob.display == c["display"] else
+            "`%s` displays %r, expected %r" % (c["src"], getattr(ob, "display", ob.raw), c["display"]),
+            None, dict(src=c["src"]))
 
     # 1. every ordered pair, three magnitudes (model on the first, oracle on all)
     for (a, b) in pairs:
@@ -138,6 +147,53 @@ def run(chk):
         if ub is None or qtylib.range_risk(tbl, ("conv", ("lit", qtylib.f2bits(1.0), ua), ub), 200):
             continue
         conv_case("compound", mags(rng)[1], ua, ub, tv=rng.choice([1.0, 1.0, 3.0]))
+    # 4b. chains of two explicit conversions  q -> c*V -> U  (U == V possibly respelled, zero values, magnitudes)
+    def chain_check(ob, v, ua, tv1, u1, tv2, u2):
+        why = check_conv(tbl, v, ua, u2, ob, "n")
+        if why:
+            return why
+        want_t = None if tv2 == 1.0 else (qtylib.f2bits(tv2), u2)
+        if (ob.target is None) != (want_t is None) or (want_t and (ob.target[0] != want_t[0] or ob.target[1] != want_t[1])):
+            return "after `-> %r %s` the conversion target recorded for display is %r (expected %r)" % (
+                tv2, qtylib.show_unit(u2), ob.target, want_t)
+        want_unit = qtylib.display_unit(tbl, u2)
+        if want_t is None and (" × " in ob.display or (want_unit and not ob.display.endswith(want_unit))):
+            return "displayed %r instead of `value %s`" % (ob.display, want_unit)
+        if want_t is not None and " × " not in ob.display:
+            return "displayed %r is not of the form `coefficient × target`" % ob.display
+        return None
+
+    chain_specs = []
+    for (a, b) in rng.sample(pairs, min(len(pairs), 500 if quick else len(pairs))):
+        ua = qtylib.one_factor(tbl, rng, a, 0.3)
+        u1 = qtylib.one_factor(tbl, rng, b, 0.3)
+        kind = rng.choice(["same", "same", "other", "zero", "zero-other"])
+        v = 0.0 if kind.startswith("zero") else mags(rng)[1]
+        g = qtylib.dim_groups(tbl)[tbl.dimkey(ua)]
+        u2 = list(u1) if kind in ("same", "zero") else qtylib.one_factor(tbl, rng, rng.choice(g), 0.3)
+        chain_specs.append((v, ua, rng.choice([45.0, 16.0, 0.25, 1.0]), u1, rng.choice([1.0, 1.0, 1.0, 3.0]), u2))
+    for _ in range(150 if quick else 1500):     # compound units, the second target a respelling of the first
+        ua = gen.unit()
+        u1 = gen.unit_of_dim(tbl.dim(ua))
+        if u1 is None or len(u1) < 1 or qtylib.range_risk(tbl, ("conv", ("lit", qtylib.f2bits(1.0), ua), u1), 200):
+            continue
+        u2 = list(reversed(u1)) if rng.random() < 0.6 else list(u1)
+        chain_specs.append((rng.choice([0.0, mags(rng)[1]]), ua, rng.choice([45.0, 2.0]), u1, 1.0, u2))
+    for (v, ua, tv1, u1, tv2, u2) in chain_specs:
+        qa = qtylib.rpn_q(qtylib.f2bits(v), ua)
+        line = "R %s %s convto %s convto" % (qa, qtylib.rpn_q(qtylib.f2bits(tv1), u1), qtylib.rpn_q(qtylib.f2bits(tv2), u2))
+        model = lambda ob, v=v, ua=ua, tv1=tv1, u1=u1, tv2=tv2, u2=u2: (
+            "r_vmconv2 PX_env prelude_n_exact %s %s %s %s %s" % (
+                qtylib.coq_Q(abs(Fraction(ob.value)) * Fraction(2 * REL)), qtylib.coq_Q(Fraction(ob.value)),
+                tbl.coq_q(qtylib.f2bits(v), ua), tbl.coq_q(qtylib.f2bits(tv1), u1), tbl.coq_q(qtylib.f2bits(tv2), u2)))
+        add("chain", line, lambda ob, a=(v, ua, tv1, u1, tv2, u2): chain_check(ob, *a), model,
+            dict(v=v, ua=qtylib.show_unit(ua), ub=qtylib.show_unit(u2), via=qtylib.show_unit(u1), tv1=tv1, tv2=tv2))
+        # the same chain through the interpreter
+        sa, s1, s2 = (qtylib.spell_unit(tbl, x, rng) for x in (ua, u1, u2))
+        if sa and s1 and s2 and rng.random() < 0.5:
+            src = "(%r * %s) -> (%r * %s) -> (%s)" % (v, sa, tv1, s1, s2 if tv2 == 1.0 else "%r * %s" % (tv2, s2))
+            add("chain-interpret", "S " + src, lambda ob, a=(v, ua, tv1, u1, tv2, u2): chain_check(ob, *a), None,
+                dict(src=src, v=v, ua=qtylib.show_unit(ua), ub=qtylib.show_unit(u2)))
     # 5. through interpret: displayed text
     for (a, b) in rng.sample(pairs, min(len(pairs), 400 if quick else 2000)):
         ua, ub = qtylib.one_factor(tbl, rng, a, 0.3), qtylib.one_factor(tbl, rng, b, 0.3)
@@ -191,7 +247,8 @@ def run(chk):
         if c["model"] is None or ob.kind != "Q" or not ob.finite():
             continue
         items.append((c["model"](ob), ob.expected_model_string()
-                      if tbl.exact_unit(ob.unit) and tbl.exact_unit(qtylib.parse_unit(c["meta"]["ua"])) else "OOS"))
+                      if tbl.exact_unit(ob.unit) and tbl.exact_unit(qtylib.parse_unit(c["meta"]["ua"]))
+                      and tbl.exact_unit(qtylib.parse_unit(c["meta"].get("via", "-"))) else "OOS"))
         idx.append(n)
     bad = qtylib.coq_mismatches(items, "c04")
     mism = {idx[k]: v for k, v in bad.items()}
@@ -224,7 +281,8 @@ def run(chk):
         "exhaustive": True, "exhaustive_what": "ordered same-dimension unit pairs of the table (%d incl. identical pairs)" % len(pairs),
         "unit_pairs": len(pairs), "dimensions": len(qtylib.dim_groups(tbl)),
         "case_kinds": dict(kinds), "model_evaluations": len(items), "model_mismatches": len(mism),
-        "oracle_failures": len(failing), "relative_tolerance": REL,
+        "oracle_failures": len(failing), "oracle_failure_kinds": dict(collections.Counter(cases[n]["kind"] for n, _ in failing)),
+        "relative_tolerance": REL,
         "outcomes": dict(collections.Counter(o.kind for o in obs)),
         "samples": [{"kind": cases[i]["kind"], "line": cases[i]["line"], "implementation": obs[i].raw}
                     for i in (0, len(cases) // 3, len(cases) - 1)],
